@@ -247,6 +247,29 @@ pub fn gen_c16(rng: &mut Rng, thorough: bool) -> Vec<Tagged> {
             }
         }
     }
+    // skip between two SPATIAL inputs with the same element count but different dimensions
+    // (1 x 4 x 4 -> 4 x 2 x 2 and the like): the source is re-read in the target's dimensions
+    for (k, acc) in ALL_ACCS.iter().enumerate() {
+        for variant in 0..2 {
+            let (input, filters, kernel, stride) = if variant == 0 { (Sh::Sp(1, 4, 4), 4usize, (2usize, 2usize), (2usize, 2usize)) } else { (Sh::Sp(2, 2, 4), 4, (1, 2), (1, 2)) };
+            let c0 = Simple::Conv { filters, kernel, stride, padding: (0, 0), dilation: (1, 1), act: Act::Tanh, dropout: None };
+            let mid = out_shape(&c0, input).unwrap();
+            let c1 = Simple::Conv { filters: 1 + k % 2, kernel: (1, 1), stride: (1, 1), padding: (0, 0), dilation: (1, 1), act: Act::Linear, dropout: None };
+            let mut spec = NetSpec::new(input.to_shape());
+            spec.weights = Some(vec![LW::One(rand_w(rng, &c0, input, 1)), LW::One(rand_w(rng, &c1, mid, 1))]);
+            spec.layers.push(LayerSpec::One(c0));
+            spec.layers.push(LayerSpec::One(c1));
+            spec.connect = vec![(0, 1)];
+            spec.skipacc = *acc;
+            let x = rand_input(rng, input, 0);
+            out.push((format!("skip-{:?}-spatial-to-spatial-other-dims-fwd", acc), Case::Net(spec.clone(), NetCmd::Forward(x.clone()))));
+            if *acc == Acc::Add {
+                let osh = out_shape(&Simple::Conv { filters: 1 + k % 2, kernel: (1, 1), stride: (1, 1), padding: (0, 0), dilation: (1, 1), act: Act::Linear, dropout: None }, mid).unwrap();
+                let t = rand_target(rng, osh, Obj::MSE);
+                out.push((format!("skip-{:?}-spatial-to-spatial-other-dims-bwd", acc), Case::Net(spec, NetCmd::Backward(x, t))));
+            }
+        }
+    }
     out
 }
 
@@ -311,15 +334,17 @@ pub fn gen_c17(rng: &mut Rng, thorough: bool) -> Vec<Tagged> {
         let _ = pool_at;
         let nlayers = spec.layers.len();
         spec.weights = Some(ws);
-        spec.loopacc = *rng.pick(&ALL_ACCS);
+        // every (architecture, accumulation) combination is visited, not left to chance
+        spec.loopacc = ALL_ACCS[(r / 3) % ALL_ACCS.len()];
         // the loop range: within the shape-preserving part
         let last_loopable = if r % 3 == 2 { nlayers - 2 } else { nlayers - 1 };
-        let b = rng.range(0, last_loopable);
-        let a = rng.range(0, b);
+        let two_loops = r % 4 == 3 && last_loopable >= 1;
+        let b = if two_loops { rng.range(1, last_loopable) } else { rng.range(0, last_loopable) };
+        let a = if two_loops { rng.range(1, b) } else { rng.range(0, b) };
         let k = rng.range(1, 4);
         let insk = rng.chance(1, 3);
         spec.loops = vec![(b, a, k, insk)];
-        if rng.chance(1, 5) && a >= 1 {
+        if two_loops || (rng.chance(1, 5) && a >= 1) {
             // a second, disjoint loop before the first
             let b2 = rng.range(0, a - 1);
             let a2 = rng.range(0, b2);
